@@ -240,6 +240,9 @@ def cases(ctx):
         ".db 1\n@=0x7e2000\n.db 2\n{INC}.db 3\nrts\n", "lda.w 0x1234\n@=RELOC\nlda.w 0x1234\n{INC}lda.w 0x1234\nrts\n",
         ".db 1\n{\n.db 2\n{INC}.db 3\n}\n.db 4\n", ".macro zz_p() {\n.db 7\n{INC}.db 8\n}\n.db 1\nzz_p()\n.db 2\n",
         ".for zz_i := 0, 2 {\n.db zz_i\n{INC}}\n.db 9\n", ".if 1 {\n.db 5\n{INC}}\n.db 6\n",
+        # ONE directive generated several times with a different delta each time (macro parameter / := constant)
+        ".macro zz_pb(d) {\n.include_ips 'p.ips', d + DELTA\n}\n.db 1\nzz_pb(0)\nzz_pb(0x8000)\nzz_pb(0x20)\n.db 2\n",
+        ".macro zz_pc(c) {\n{{c}}\n{{c}}\n}\nzz_d := 0\nzz_pc({\n.include_ips 'p.ips', DELTA\n})\n.db 3\n",
     ]
     for rom, org, reloc in (("low", 0x018000, 0x80A000), ("high", 0x410000, 0x428000)):
         for recs, delta in (([(0x20000, b"\xde\xad\xbe\xef")], 0), ([(0x300, b"ab"), (0x500, b"cdef")], -0x200),
@@ -247,7 +250,7 @@ def cases(ctx):
             for body in placements:
                 if tier == "quick" and rng.random() < 0.4:
                     continue
-                src = (f"*={org:#08x}\n" + body.replace("{INC}", f".include_ips 'p.ips', {delta}\n")
+                src = (f"*={org:#08x}\n" + body.replace("DELTA", str(delta)).replace("{INC}", f".include_ips 'p.ips', {delta}\n")
                        .replace("ORG2", f"{org + 0x10000:#08x}").replace("RELOC", f"{reloc:#08x}"))
                 out.append({"kind": "in-program", "prog": True, "rom": rom, "trace": True, "files": {"p.ips": patch_of(recs)},
                             "spec": {"t": "blocks", "high": rom == "high"}, "src": src})
